@@ -33,13 +33,17 @@ Bad == { St("delkey-nonstring", SExpr(Call(Id("delkey"), <<Id("o"), Num(5)>>))),
          St("keys-on-number", SPrint(Call(Id("keys"), <<Id("q")>>))), St("values-on-array", SPrint(Call(Id("values"), <<Arr(<<>>)>>))),
          St("keys-arity", SPrint(Call(Id("keys"), <<>>))), St("delkey-arity", SPrint(Call(Id("delkey"), <<Id("o")>>))) }
 
-RECURSIVE GoodSeqs(_)
-GoodSeqs(n) == IF n = 0 THEN { <<>> } ELSE { Append(h, g) : h \in GoodSeqs(n - 1), g \in Good }
-Hists == UNION { GoodSeqs(k) : k \in 0..HistLen } \cup { Append(h, b) : h \in UNION { GoodSeqs(k) : k \in 0..(HistLen - 1) }, b \in Bad }
+(* histories as SEQUENCES of sequences: TLC's set union on big sets of big records is quadratic *)
+Cross(A, B, F(_, _)) == FlattenSeq([i \in 1..Len(A) |-> [j \in 1..Len(B) |-> F(A[i], B[j])]])
 GoodSeq == SetToSeq(Good)
+BadSeq == SetToSeq(Bad)
+RECURSIVE GoodSeqs(_)
+GoodSeqs(n) == IF n = 0 THEN << <<>> >> ELSE LET prev == GoodSeqs(n - 1) IN Cross(prev, GoodSeq, LAMBDA h, g : Append(h, g))
+UpTo(n) == FlattenSeq([k \in 1..(n + 1) |-> GoodSeqs(k - 1)])
+Hists == UpTo(HistLen) \o Cross(UpTo(HistLen - 1), BadSeq, LAMBDA h, b : Append(h, b))
 RECURSIVE RHist(_, _, _)
 RHist(s, i, n) == IF n = 0 THEN <<>> ELSE <<GoodSeq[1 + RandInt(s, i, Len(GoodSeq))]>> \o RHist(s, i + 1, n - 1)
-Randoms == { RHist(SeedProp * 4096 + k, 1, RandLen) : k \in 1..NRandom }
+Randoms == [k \in 1..NRandom |-> RHist(SeedProp * 4096 + k, 1, RandLen)]
 
 Show == << SPrint(Id("o")), SPrint(Id("p")), SPrint(Call(Id("keys"), <<Id("o")>>)), SPrint(Call(Id("values"), <<Id("o")>>)), SPrint(Call(Id("keys"), <<Id("o")>>)),
            SPrint(Call(Id("values"), <<Id("p")>>)), SPrint(Call(Id("keys"), <<Id("p")>>)) >>
@@ -53,10 +57,11 @@ RECURSIVE HName(_)
 HName(h) == IF h = <<>> THEN "" ELSE h[1].nm \o ";" \o HName(Tail(h))
 ClassOf(h) == IF h = <<>> THEN "empty" ELSE IF Len(h) > HistLen THEN "random" ELSE h[Len(h)].nm
 
-Cases0 == SetToSeq(Hists \cup Randoms)
+Cases0 == Hists \o Randoms
 NC0 == Len(Cases0)
 Cases == Cases0 \o SelectSeq(Cases0, LAMBDA h : Len(h) >= 2)      \* second half: quiet rendering
-Programs == [i \in 1..Len(Cases) |-> FreshProg(Prelude \o (IF i <= NC0 THEN Body(Cases[i]) ELSE BodyQuiet(Cases[i]) \o Show), 1)]
+ShowO == << SPrint(Call(Id("keys"), <<Id("o")>>)), SPrint(Call(Id("values"), <<Id("o")>>)), SPrint(Id("o")) >>      \* one object only, so that nothing else is listed in between
+Programs == [i \in 1..Len(Cases) |-> FreshProg(Prelude \o (IF i <= NC0 THEN Body(Cases[i]) ELSE ShowO \o BodyQuiet(Cases[i]) \o ShowO \o Show), 1)]
 FamProgOf(i) == Programs[i]
 Init == \E i \in 1..Len(Programs) : InitSem(i, <<>>, FALSE)
 Next == SemNext
